@@ -294,6 +294,10 @@ mod test {
 pub mod verif_hooks {
   use super::*;
   /// object-form fixer (`SerializableFixConfig` has private fields)
+  /// parsed shape of the fixer's template (see `core::replacer::verif_hooks::template_parts`)
+  pub fn template_parts<L: Language>(fixer: &Fixer<L>) -> (Vec<String>, Vec<(u8, String, usize)>) {
+    ast_grep_core::replacer::verif_hooks::template_parts(&fixer.template)
+  }
   pub fn fix_config(
     template: &str,
     expand_start: Option<Relation>,
